@@ -1846,10 +1846,17 @@ func CantAdd(mach am.Api, states am.S, args am.A) bool {
 	args2 := &am.ACheck{
 		CheckDone: make(chan struct{}),
 	}
-	mach.CanAdd(states, am.PassMerge(args, am.Pass(args2)))
+	if mach.CanAdd(states, am.PassMerge(args, am.Pass(args2))) == am.Canceled {
+		// rejected without a check (disposed, backoff): nothing to wait for
+		select {
+		case <-args2.CheckDone:
+		default:
+			return true
+		}
+	}
 	<-args2.CheckDone
 
-	return !args2.Canceled
+	return args2.Canceled
 }
 
 // CantAdd1 is a single-state version of [CantAdd].
@@ -1862,7 +1869,14 @@ func CantRemove(mach am.Api, states am.S, args am.A) bool {
 	args2 := &am.ACheck{
 		CheckDone: make(chan struct{}),
 	}
-	mach.CanRemove(states, am.PassMerge(args, am.Pass(args2)))
+	if mach.CanRemove(states, am.PassMerge(args, am.Pass(args2))) == am.Canceled {
+		// rejected without a check (disposed, backoff): nothing to wait for
+		select {
+		case <-args2.CheckDone:
+		default:
+			return true
+		}
+	}
 	<-args2.CheckDone
 
 	return args2.Canceled
